@@ -41,9 +41,17 @@ def startsNegation : List Char → Bool
 
 def isIdChar (c : Char) : Bool := c.isAlphanum || c = '_'
 
-/-- `symbol = @{ !negation ~ "_"? ~ ASCII_ALPHA_LOWER ~ (ASCII_ALPHANUMERIC | "_")* }` -/
+/-- `"not" ~ !(ASCII_ALPHANUMERIC | "_")`: the word `not` (fix a1dc9d0: it is no name) -/
+def startsNotWord : List Char → Bool
+  | 'n' :: 'o' :: 't' :: rest =>
+    match rest with
+    | [] => true
+    | c :: _ => !isIdChar c
+  | _ => false
+
+/-- `symbol = @{ !("not" ~ !(ASCII_ALPHANUMERIC | "_")) ~ "_"? ~ ASCII_ALPHA_LOWER ~ (ASCII_ALPHANUMERIC | "_")* }` -/
 def lexSymbol (cs : List Char) : Option (List Char × List Char) :=
-  if startsNegation cs then none
+  if startsNotWord cs then none
   else
     match cs with
     | '_' :: c :: r =>
